@@ -158,7 +158,7 @@ pub fn c12() -> i32 {
     let props = ["C12", "PANIC"];
     // ---- (a) mode S on the handshake
     {
-        let depth = if t { 7 } else { 5 };
+        let depth: i32 = std::env::var("VERIF_C12_DEPTH").ok().and_then(|x| x.parse().ok()).unwrap_or(if t { 6 } else { 5 });
         let mut scns = Vec::new();
         for spec in [false, true] {
             let mut s = handshake_scn("c12-S", "1+1", spec, 100, depth);
@@ -253,6 +253,35 @@ pub fn c12() -> i32 {
                         s.name = format!("{} notify={notify} timeout={timeout} two silences len={len} gap={gap}", s.name);
                         s.horizon = 3 + 2 * len + gap + 2;
                         s.probe = 30;
+                        s.checks = CK_C02;
+                        scns.push(s);
+                    }
+                }
+            }
+        }
+        // the same at other frame rates (the timers are in milliseconds, the polls per frame) and
+        // over longer links
+        for (fps, lat) in [(20usize, 0), (30, 2), (144, 1), (144, 6), (60, 4)] {
+            let round_us = 1_000_000 / fps as u64;
+            for (notify, timeout) in [(100u64, 300u64), (250, 300)] {
+                let to_rounds = (timeout * 1000 / round_us) as i32;
+                let step = if t { 1 } else { (to_rounds / 12).max(1) as usize };
+                for len in (1..=to_rounds + 3).step_by(step) {
+                    for w in [2usize, 0] {
+                        let mut s = base_scn("c12-silence-fps", "1+1", w, 0, false, Pred::RepeatLast, Program::Changing, lat);
+                        s.fps = fps;
+                        s.round_us = round_us;
+                        for p in s.peers.iter_mut() {
+                            p.notify_ms = notify;
+                            p.timeout_ms = timeout;
+                        }
+                        let (a, b) = (s.peers[0].addr, s.peers[1].addr);
+                        let gap = 3 + 2 * lat;
+                        s.outages.push(Outage { from: b, to: a, start: 3 + lat, len, classes: CLASS_ALL });
+                        s.outages.push(Outage { from: b, to: a, start: 3 + lat + len + gap, len, classes: CLASS_ALL });
+                        s.name = format!("{} fps={fps} notify={notify} timeout={timeout} two silences len={len} gap={gap}", s.name);
+                        s.horizon = 3 + lat + 2 * len + gap + 2;
+                        s.probe = (600_000 / round_us) as i32 + 10;
                         s.checks = CK_C02;
                         scns.push(s);
                     }
